@@ -403,6 +403,7 @@ def run(ctx):
 def replay(ctx, obj):
     case = obj['input']
     m = G.from_json(case['mesh'])
+    m['blocks'] = {t: m['blocks'][t] for t in G.ELEMENT_TYPES if t in m['blocks']}
     fld = field_from_json(case['field'])
     if case['check'] == 'n2e':
         aff = case.get('affine')
